@@ -293,7 +293,6 @@ class XPath1Parser(Parser[ta.XPathTokenType]):
         if self.next_token.symbol in ('*', '+', '?'):
             token.occurrence = self.next_token.symbol
             self.advance()
-            self.next_token.unexpected('*', '+', '?')
 
     def parse_sequence_type(self) -> XPathToken:
         if self.next_token.label in ('kind test', 'sequence type', 'function test'):
